@@ -445,6 +445,51 @@ class Gen:
             op["kw"] = self.gen_kw()
         return self.pick_vtype(op)
 
+    def gen_distribute_dupgap(self, view):
+        """A distribution whose destination list names one position twice and leaves one position of the range out,
+        so that the number of named wells equals the length of the range although the range has a gap; the volume fits
+        every named well and would overflow the one left out. Only the exclusion list of the R record protects the gap.
+        None if the world offers no such constellation."""
+        rng = self.rng
+        troughs = [i for i, g in enumerate(self.geos) if g.trough]
+        plates = [i for i, g in enumerate(self.geos) if not g.trough and g.idrows * g.cols >= 3]
+        rng.shuffle(troughs)
+        rng.shuffle(plates)
+        for si in troughs:
+            gs = self.geos[si]
+            cs = self.vols(view, si)
+            for di in plates:
+                gd = self.geos[di]
+                cd = self.vols(view, di)
+                ids = gd.all_ids()  # column-major = position order
+                for _ in range(8):
+                    k = rng.randint(3, min(6, len(ids)))
+                    p0 = rng.randrange(0, len(ids) - k + 1)
+                    block = ids[p0:p0 + k]
+                    room = {w: gd.vmax - cd[gd.real(w)] for w in block}
+                    gap = min(block[1:-1], key=lambda w: room[w])
+                    named = [w for w in block if w != gap]
+                    dup = max(named, key=lambda w: room[w])
+                    if room[dup] / 2 <= room[gap] + 1.0:
+                        continue
+                    hi = min(min(room[w] for w in named if w != dup), room[dup] / 2, self.wl_max)
+                    lo = room[gap] + 1.0
+                    if hi <= lo:
+                        continue
+                    v = snap_down(rng.uniform(lo, hi), self.regime)
+                    if not lo <= v <= hi:
+                        continue
+                    dflat = named + [dup]
+                    rng.shuffle(dflat)
+                    col = rng.randrange(gs.cols)
+                    cols_ok = [c for c in range(gs.cols) if cs[(0, c)] - v * len(dflat) >= gs.vmin]
+                    if not cols_ok:
+                        continue
+                    col = rng.choice(cols_ok)
+                    return {"op": "distribute", "src": si, "col": col, "dst": di, "dw": dflat, "volume": enc(float(v)),
+                            "intent": "ok:dupgap", "kw": {"label": rng.choice([x for x in LABELS if x is not None])}}
+        return None
+
     def gen_self_volumes(self, view):
         """`wl.dispense(plate, plate.wells, plate.volumes)` (double every well) or `wl.aspirate(..., plate.volumes)`
         (empty every well): wells and volumes are the labware's own attribute objects. None if no labware fits."""
